@@ -3,9 +3,10 @@ CONSTANTS
   Systems <- MCSystems
   Comp <- MCCompCX
   Rxns <- MCRxns
-  MaxOps = 4
+  MaxOps = 3
 VIEW View
 PROPERTY AlignedUnlessFailed
 PROPERTY FitUsesCurrent
 PROPERTY ResetClears
 INVARIANT RowsBelong
+INVARIANT DerivImpliesPlain
